@@ -116,11 +116,20 @@ FailDeeper(st, e) == [st EXCEPT !.status = "err", !.err = Wrap(e, IncludeLevels(
 
 \* Append a token; if the previous token is still "open for gluing" (it came from a macro body
 \* and was followed by `` ) the text is concatenated instead: token pasting.
+NoGlueRaw(out) == IF out # <<>> /\ Last(out).g THEN Append(Front(out), [Last(out) EXCEPT !.g = FALSE]) ELSE out
+\* Two texts written without a blank between them are ONE token only if the lexer reads them as one: a word
+\* character on both sides of the seam, or an escaped identifier on the left (it runs up to the next blank).
+WordCh == {"a","b","c","d","e","f","g","h","i","j","k","l","m","n","o","p","q","r","s","t","u","v","w","x","y","z",
+           "A","B","C","D","E","F","G","H","I","J","K","L","M","N","O","P","Q","R","S","T","U","V","W","X","Y","Z",
+           "0","1","2","3","4","5","6","7","8","9","_","$"}
+OneToken(a, b) == /\ Len(a) > 0 /\ Len(b) > 0
+                  /\ \/ SubSeq(a, 1, 1) = "\\"
+                     \/ SubSeq(a, Len(a), Len(a)) \in WordCh /\ SubSeq(b, 1, 1) \in WordCh
 EmitTok(out, t, tag, glue) ==
-  IF out # <<>> /\ Last(out).g
+  IF out # <<>> /\ Last(out).g /\ OneToken(Last(out).t, t)
     THEN Append(Front(out), [Last(out) EXCEPT !.t = @ \o t, !.g = glue])
-    ELSE Append(out, [t |-> t, o |-> tag, g |-> glue, c |-> FALSE])
-NoGlue(out) == IF out # <<>> /\ Last(out).g THEN Append(Front(out), [Last(out) EXCEPT !.g = FALSE]) ELSE out
+    ELSE Append(NoGlueRaw(out), [t |-> t, o |-> tag, g |-> glue, c |-> FALSE])
+NoGlue(out) == NoGlueRaw(out)
 EmitCmt(out, t, tag) == Append(NoGlue(out), [t |-> t, o |-> tag, g |-> FALSE, c |-> TRUE])
 Unglue(st) == [st EXCEPT !.out = NoGlue(@),
                           !.oi = IF @ # <<>> /\ Last(@).g THEN Append(Front(@), [Last(@) EXCEPT !.g = FALSE]) ELSE @]
